@@ -474,3 +474,49 @@ def c16(ctx):
            "raw_streams": summ["raw_streams"], "outcomes": summ["outcomes"], "distinct_nontrivial": summ["distinct_nontrivial"],
            "rule": rule, "samples": summ["samples"] or [{"note": "none"}], "exhaustive": False}
     return vlib.finish(ctx, cov)
+
+
+# ------------------------------------------------------------------ routing table
+@register("C13")
+def c13(ctx):
+    quick = ctx.tier == "quick"
+    ctx.assumptions += ["stabilisation (equal member lists and tables on every live member, two consecutive polls) is a precondition; a time-out waiting for it is inconclusive",
+                        "abrupt stop = memberlist shut down without the leave broadcast, detected by the other members' failure detector"]
+    rule = ("join/leave/write event sequences exported by TLC from Routing.tla (one per distinct model state, de-duplicated on their membership events) "
+            "plus seeded random sequences over up to 6 members with graceful leaves, abrupt stops, departure of the coordinator and re-join under the same address; "
+            "R in {1,2,3}, partition counts {7,13,71}; after every membership event the cluster is stabilised and every member's and a client's table, the holders of "
+            "data and sample key placements are logged; non-trivial = at least two membership changes")
+    r = vlib.design_check(ctx, "Routing", "Routing.cfg", consts={"Export": "TRUE", "MaxEvents": 3 if quick else 4, "MaxWrites": 1 if quick else 2},
+                          name="routing-design", timeout=1500)
+    paths = set()
+    for b in vlib.behaviours(r):
+        evs = json.loads(b)
+        if any(e["ev"] != "write" for e in evs):
+            paths.add(json.dumps(evs))
+    paths = sorted(paths)
+    import random
+    random.Random(ctx.seed).shuffle(paths)
+    paths = paths[:(14 if quick else 250)]
+    out = ctx.dir("drv")
+    behfile = os.path.join(out, "beh.jsonl")
+    open(behfile, "w").write("\n".join(paths) + "\n")
+    rc, o = vlib.go_test(ctx, "rt", "TestRouting", env={"VERIF_OUT": out, "VERIF_BEH": behfile, "VERIF_RT_RANDOM": 10 if quick else 200,
+                                                         "VERIF_RT_LEN": 3 if quick else 6}, timeout=3000)
+    if crash_or_fail(ctx, rc, o, "applying membership sequences"):
+        return vlib.finish(ctx, {"evaluations": 0, "distinct_nontrivial": 0, "rule": rule, "samples": ["crash"]})
+    summ = json.load(open(os.path.join(out, "rt.summary.json")))
+    accepted, failures = vlib.validate_chunks(ctx, "RoutingTrace", "RoutingTrace.cfg", os.path.join(out, "rt.ndjson"), consts={}, name="rt")
+    ctx.traces = accepted
+    for seq_lines, line, msg in failures:
+        head = json.loads(seq_lines[0])
+        evs = [json.loads(l) for l in seq_lines[1:line + 0]]
+        hist = [(e.get("ev"), e.get("m")) for e in evs if e.get("t") == "event"]
+        vlib.report_failure(ctx, "routing table: %s after %s [%s]" % (msg, hist, head.get("cfg")), {"kind": "routing", "msg": msg},
+                            {"reset": head, "events": hist, "stable": json.loads(seq_lines[line - 1])})
+    cov = {"evaluations": summ["evaluations"], "sequences": summ["sequences"], "sequences_from_tlc": summ["from_tlc"],
+           "distinct_nontrivial": summ["distinct_nontrivial"], "rule": rule, "samples": summ["samples"] or ["none"], "exhaustive": False,
+           "not_stabilised": summ.get("not_stabilised", 0), "notes": summ.get("notes") or []}
+    if summ.get("not_stabilised", 0) > max(2, summ["sequences"] // 5):
+        vlib.write_evidence(ctx, cov)
+        raise Inconclusive("too many sequences did not stabilise: %s" % summ.get("notes"))
+    return vlib.finish(ctx, cov)
